@@ -483,6 +483,11 @@ static void check_skipper(cfg_t *ctx, int act_kind, int act_state, struct pstate
 		V_ASSERT(act_kind == X_ERR, "[C12] the input may not end inside an undeclared item");
 		return;
 	}
+	if (T == CFGT_COMMENT) { /* comments are transparent inside an undeclared item as well (C15) */
+		V_ASSERT(act_kind == X_CONT && act_state == PSTATE && *ps->ignore == pre_ignore, "[C15] a comment token inside an undeclared item is skipped");
+		V_ASSERT(n_err == 0, "[C12] skipping an undeclared item produces no diagnostic");
+		return;
+	}
 #if PSTATE == 10
 	if (T == '=') {
 		V_ASSERT(act_kind == X_CONT && act_state == 14, "[C12] after an undeclared name '=' introduces a value");
@@ -570,7 +575,7 @@ static void check_outcome(cfg_t *ctx, int act_kind, int act_state, struct pstate
 		V_ASSERT(act_kind == X_CONT && act_state == PSTATE, "[C15] a comment token between any two tokens is skipped (parser state unchanged)");
 		if (act_kind == X_CONT)
 			assert_store_unchanged("comment");
-		V_WITNESS("comment token handled");
+		V_WITNESS("post checked");
 		return;
 	}
 	if (T == CFGT_COMMENT && PSTATE == 0) {
@@ -584,7 +589,7 @@ static void check_outcome(cfg_t *ctx, int act_kind, int act_state, struct pstate
 	}
 #else
 	if (T == CFGT_COMMENT && PSTATE >= 1) {
-		V_WITNESS("comment token handled");
+		V_WITNESS("post checked");
 		return; /* decided by C15 */
 	}
 #endif
